@@ -181,6 +181,11 @@ KNOWN_SHAPES = [
     ("def lc(n: int) -> str:\n\treturn 'ab' + 'c' + str(n)\n", [('lc', [(1,)], 'str')], 'string-literal-concat'),
     ("def si(s: str) -> bool:\n\treturn s[0] == 'a'\n", [('si', [('abc',), ('xbc',)], 'bool')], 'str-index-compare'),
     ("def bo(a: int, b: int) -> int:\n\treturn a or b\n", [('bo', [(0, 5), (2, 5)], 'int')], 'or-on-int'),
+    ("def ec(a: int, b: int) -> int:\n\ttotal = 0\n\tys = [a, b, 3]\n\tfor i, x in enumerate(ys):\n\t\tif x > 2:\n\t\t\tcontinue\n\t\ttotal += i + x\n\treturn total\n", [('ec', [(200, 1), (1, 1)], 'int')], 'enumerate-continue'),
+    ("def il(a: int) -> bool:\n\treturn a in [1, 2]\n", [('il', [(1,), (5,)], 'bool')], 'in-list-literal'),
+    # repaired shapes, kept as regression inputs
+    ("def rb(a: int) -> int:\n\ttotal = 0\n\tfor i in range(a & 3):\n\t\ttotal += i\n\tys = [a, 1, 3]\n\tys.insert(a & 1, 9)\n\treturn total + ys[0] + ys.pop(a & 1)\n", [('rb', [(200,), (7,)], 'int')], 'range-and-index-grouping'),
+    ("def dg(a: int, s: str) -> int:\n\td = {'x': a}\n\treturn d.get('y', 0) + len(d) + len(str(a) + s) * 2\n", [('dg', [(3, 'ab')], 'int')], 'call-result-grouping'),
 ]
 
 
